@@ -320,7 +320,9 @@ fn file_cases(args: &Args, rep: &mut Report) {
             use std::io::Write;
             let mut f = std::fs::OpenOptions::new().write(true).open(&fifo2).expect("open fifo for writing");
             for chunk in pl.chunks(7001) {
-                f.write_all(chunk).expect("fifo write");
+                if f.write_all(chunk).is_err() {
+                    break; // the reader closed its end early: judged by the hash below
+                }
             }
         });
         let got = guarded(|| {
@@ -365,7 +367,18 @@ pub fn run(args: &Args) -> Report {
     });
     if args.only.is_none() {
         #[cfg(feature = "full")]
-        file_cases(args, &mut rep);
+        {
+            let r = guarded(|| file_cases(args, &mut rep));
+            if let Err(msg) = r {
+                let at = monlib::last_panic_at();
+                if at.starts_with("/repo/") {
+                    rep.violation("C11/library-panic-outside-guard", format!("the library panicked at {} during the file battery: {}", at, msg), vec!["c11".into(), "--files-only".into(), "1".into()]);
+                } else {
+                    rep.count("harness_panics", 1);
+                    rep.inconclusive.push(format!("harness panic in the file battery at {}: {}", at, msg));
+                }
+            }
+        }
     }
     rep
 }
